@@ -16,7 +16,10 @@
      ledger     per user: balance + slots held = the same before the run + grants - forfeits of
                 appointments accepted in this run and dropped
      orphan     every appointment has its user row, every tracker its appointment row
-     panic      no thread panicked, no mutex poisoned (the tower still answers), no deadlock *)
+     panic      no thread panicked, no mutex poisoned (the tower still answers), no deadlock
+     linear     among the sequential orders that end in the run's final state one gives the run's replies (readers aside)
+     reply      what a get_appointment / get_subscription_info request is told is what it is told in one of the
+                sequential orders (the other replies are tied to the final state by serial / ledger) *)
 open Model
 open Driver_util
 
@@ -129,6 +132,7 @@ type case = {
   st0 : iobs; t0 : tower option;             (* model pre-state (None: the model aborted in the pre-state) *)
   progs : out prog list;
   mutable seqs : (string * iobs) list;       (* sequential outcomes on the real tower: replies, state *)
+  mutable seqreps : string list list list;   (* ... and the replies thread by thread *)
   words : (string, unit) Hashtbl.t;
   mutable runs : int;
 }
@@ -193,7 +197,7 @@ let handle_ch (lineno : int) (r : reader) : unit =
                | Some t -> List.map (fun th -> prog_of_thread log_enabled script t (List.map (fun a -> a.op) th)) threads
                | None -> []) in
   let c = { name; cfg; h0; bound; c_slots_i = slots; pre = List.map fst pre_with; threads; script; script_i; st0; t0; progs;
-            seqs = []; words = Hashtbl.create 256; runs = 0 } in
+            seqs = []; seqreps = []; words = Hashtbl.create 256; runs = 0 } in
   incr cases;
   (match t0 with
    | None -> corr lineno c "pre-state" "model aborted" "ok" "-"
@@ -299,6 +303,48 @@ let monitors (lineno : int) (c : case) (x : run) (roots : string list) : unit =
   if int_of_nat (orphans users apps trks) > 0 || unknown_trk then
     mon lineno c "orphan" "fk" (show_obs x.st) w;
   if not panicked && x.deadlock = "-" then begin
+    (* reply: what a reader (get_appointment / get_subscription_info) is told is what it is told in a sequential order *)
+    List.iteri (fun i th ->
+      match th with
+      | [{ op = (OGet (Some u, loc)); _ }] when c.seqreps <> [] ->
+          let r = norm_rep (List.nth x.reps i) in
+          if not (List.exists (fun sr -> List.nth sr i = r) c.seqreps) then begin
+            let same_uuid_add = List.exists (function [{ op = OAdd (Some u', loc', _, _, _); _ }] -> u' = u && loc' = loc | _ -> false) c.threads in
+            let purged = List.exists (function (u0 :: _) -> u0 = int_of_n u | _ -> false) c.st0.users
+                         && not (List.exists (function (u0 :: _) -> u0 = int_of_n u | _ -> false) x.st.users) in
+            let cls = (match r with
+                       | "GA" :: _ when same_uuid_add -> "get:appointment-visible-before-its-trigger-is-handled"
+                       | ["GN"] when purged -> "get:not-found-after-its-owner-was-purged"
+                       | ("GT" | "GN") :: _ when List.exists (fun sr -> match List.nth sr i with "GE" :: _ -> true | _ -> false) c.seqreps
+                                                 && List.exists (fun sr -> match List.nth sr i with "GA" :: _ -> true | _ -> false) c.seqreps ->
+                           "get:expiry-test-before-the-block-tables-after-it"
+                       | _ -> "get:reply-of-no-sequential-order") in
+            mon lineno c "reply" cls (Printf.sprintf "thread=%d,reply=[%s],sequential=[%s]" i (String.concat " " r)
+                                        (String.concat " || " (List.map (fun sr -> String.concat " " (List.nth sr i)) c.seqreps))) w
+          end
+      | [{ op = (OGetSub (Some u)); _ }] when c.seqreps <> [] ->
+          let r = norm_rep (List.nth x.reps i) in
+          if not (List.exists (fun sr -> List.nth sr i = r) c.seqreps) then
+            let purged = List.exists (function (u0 :: _) -> u0 = int_of_n u | _ -> false) c.st0.users
+                         && not (List.exists (function (u0 :: _) -> u0 = int_of_n u | _ -> false) x.st.users) in
+            let same_user_add = List.exists (function [{ op = OAdd (Some u', _, _, _, _); _ }] -> u' = u | _ -> false) c.threads in
+            mon lineno c "reply" (match r with "SO" :: _ when purged -> "getsub:locators-read-after-its-owner-was-purged"
+                                             | "SO" :: _ when same_user_add -> "getsub:charged-before-the-appointment-is-stored"
+                                             | _ -> "getsub:reply-of-no-sequential-order")
+              (Printf.sprintf "thread=%d,reply=[%s],sequential=[%s]" i (String.concat " " r)
+                 (String.concat " || " (List.map (fun sr -> String.concat " " (List.nth sr i)) c.seqreps))) w
+      | _ -> ()) c.threads;
+    (* linear: among the sequential orders that end in this state, one gives these replies (readers aside: `reply`) *)
+    (let is_reader th = (match th with [{ op = (OGet _ | OGetSub _); _ }] -> true | _ -> false) in
+     let writers_only reps = List.filteri (fun i _ -> not (is_reader (List.nth c.threads i))) reps in
+     let mine = writers_only (List.map norm_rep x.reps) in
+     let same_state = List.filteri (fun k _ -> snd (List.nth c.seqs k) = x.st) c.seqreps in
+     if c.seqreps <> [] && same_state <> [] && not (List.exists (fun sr -> writers_only sr = mine) same_state) then
+       let ops = String.concat "+" (List.sort compare (List.map (fun th -> String.concat ">" (List.map (fun (a : aop) -> a.kind) th)) c.threads)) in
+       let tags = String.concat "," (List.map (function (t :: _) -> t | [] -> "-") mine) in
+       mon lineno c "linear" (ops ^ ":" ^ tags)
+         (Printf.sprintf "replies=[%s],orders-with-this-state=[%s]" (reps_s x.reps)
+            (String.concat " || " (List.map (fun sr -> reps_s sr) same_state))) w);
     (* serial: the final state is the final state of a sequential order *)
     if not (List.exists (fun (_, s) -> s = x.st) c.seqs) then begin
       (* columns that hold a height read from one of the AtomicU32 heights (or the carrier's copy); the expiry of a
@@ -377,6 +423,7 @@ let handle_cr (lineno : int) (r : reader) : unit =
       if x.kind = "Q" then begin
         incr seq_runs;
         c.seqs <- c.seqs @ [(reps_s (List.map norm_rep x.reps), x.st)];
+        c.seqreps <- c.seqreps @ [List.map norm_rep x.reps];
         (* the sequential orders on the model *)
         (match c.t0 with
          | None -> ()
